@@ -295,12 +295,20 @@ def check_slots(ctx):
     ctx.check(items, R4, ops_prop.key, "operations = (index, operator) pairs", "PauliTerm.operations no longer yields (index, operator) pairs", ops_prop)
     # writer slots
     ok_w = False
+    seen_w = False
     for n in body_walk(w.node):
         if isinstance(n, ast.ListComp) and isinstance(n.elt, ast.Dict) and "operations" in norm(n.generators[0].iter):
+            seen_w = True
             v = norm(n.generators[0].target)
             m = {const_str(k): norm(val) for k, val in zip(n.elt.keys, n.elt.values) if k is not None}
             ok_w = m.get("qubit") == f"{v}[0]" and m.get("op") == f"{v}[1]"
-    ctx.check(ok_w, R4, w.key + ":pauli-op-slots", "qubit <- pair[0] (index), op <- pair[1] (letter)", "the writer does not store the index under 'qubit' and the letter under 'op'", w)
+            if not ok_w and isinstance(n.generators[0].target, ast.Tuple) and len(n.generators[0].target.elts) == 2:
+                a0, a1 = (norm(x) for x in n.generators[0].target.elts)  # for index, letter in term.operations
+                ok_w = m.get("qubit") == a0 and m.get("op") == a1
+    if not seen_w:
+        ctx.undecided(R4, w.key + ":pauli-op-slots", "cannot find the list of {'qubit': .., 'op': ..} records built over term.operations", w)
+    else:
+      ctx.check(ok_w, R4, w.key + ":pauli-op-slots", "qubit <- pair[0] (index), op <- pair[1] (letter)", "the writer does not store the index under 'qubit' and the letter under 'op'", w)
     # reader slots -> from_iterable
     ok_r = False
     for n in body_walk(r.node):
@@ -320,7 +328,15 @@ def check_slots(ctx):
     # coefficient parts
     txtw = norm(w.node)
     ok_cw = "'real': term.coefficient.real" in txtw and "'imag': term.coefficient.imag" in txtw
-    ctx.check(ok_cw, R4, w.key + ":coefficient-parts", "real <- .real, imag <- .imag", "the writer does not store coefficient.real under 'real' and coefficient.imag under 'imag'", w)
+    if "'real'" not in txtw or "'imag'" not in txtw or "term.coefficient" not in txtw:
+        # the members exist but are written from something other than `term.coefficient.real/.imag` spelt out here (a helper, a local)
+        cw_lost = "'real'" in txtw or "'imag'" in txtw or any(isinstance(c, ast.Call) and "coefficient" in norm(c) for c in body_walk(w.node))
+    else:
+        cw_lost = False
+    if not ok_cw and cw_lost:
+        ctx.undecided(R4, w.key + ":coefficient-parts", "cannot follow how the coefficient's real and imaginary parts reach the record", w)
+    else:
+      ctx.check(ok_cw, R4, w.key + ":coefficient-parts", "real <- .real, imag <- .imag", "the writer does not store coefficient.real under 'real' and coefficient.imag under 'imag'", w)
     d = Defs(r.node)
     defs = d.defs.get("coefficient", [])
     ok_cr = any(isinstance(v, ast.Subscript) and const_str(v.slice) == "real" for v in defs) and any(isinstance(v, ast.BinOp) and "1j" in norm(v) and "'imag'" in norm(v) for v in defs)
